@@ -37,9 +37,13 @@ CLAIMED = {
    note="All 20 theorems closed under the global context. Granularity: execute, cancel, status, get_results and every JobStatus update are atomic steps; pre-emption inside them, and between the task's return and the wrapper's final status update, is not exercised by the harness (the theorems cover the latter). results_list conversion is not modelled.",
    tech="Coq proof by invariant over all schedules + refutation witnesses + extracted-model differential correspondence with forced interleavings (semaphores, watchdogs, no sleeps)"),
 }
+REASON_HOLD = "model being brought in line with a repair just committed to /repo; not claimed until its check is green again"
 REASON_PENDING = "not yet built in this development (see DESIGN.md §10 for the build order); no check is claimed"
 
+HOLD = {'C18'}   # claimed entries temporarily withheld (model being adapted to a fix in /repo)
+
 def main():
+    for h in HOLD: CLAIMED.pop(h, None)
     checks = []
     for pid in ALL:
         if pid not in CLAIMED:
@@ -68,7 +72,7 @@ def main():
                      "kind_free_text": "Coq 8.16 development (generic ring models, theorems in coq/Props), model extracted to OCaml and compared with /repo on generated inputs on every run"}],
         "checks": checks,
         "notes": "Genuine defects repaired in /repo are 'fix:' commits listed in known_findings.json as fixed entries; open findings print KNOWN-FINDING lines.",
-        "not_applicable": [{"property_id": p, "reason": REASON_PENDING} for p in ALL if p not in CLAIMED],
+        "not_applicable": [{"property_id": p, "reason": (REASON_HOLD if p in HOLD else REASON_PENDING)} for p in ALL if p not in CLAIMED],
     }
     json.dump(man, open(os.path.join(V, "MANIFEST.json"), "w"), indent=1)
     print("claimed:", sorted(CLAIMED))
